@@ -10,6 +10,8 @@ PROPS = {
     "C16": dict(pkg="rhpc", level="fault_enumeration", stages=[
         direct("enum", "TestC16Enum", quick=dict(shards=8, timeout=900), thorough=dict(shards=8, timeout=3600)),
         direct("overlap", "TestC16Overlap"),
+        direct("concurrent", "TestC16Concurrent"),
+        direct("concurrent-race", "TestC16Concurrent", race=True, tiers=["thorough"]),
         rapid("rapid", "TestC16", dict(shards=16, checks=500), dict(shards=16, checks=10000, timeout=3000)),
     ]),
 }
